@@ -43,7 +43,11 @@ THEOREMS = [
     "enu2trs_as_R3R1", "trs2enu_as_R1R3", "trs2enu_transpose", "enu_rotation", "enu_preserves", "enu_roundtrip",
     "up_is_normal", "normal_is_ellipsoid_gradient", "foot_of_normal", "height_along_normal", "east_perp_axis_up", "north_completes_rh",
     "acr_orthonormal_rh", "acr_axes", "az_el_are_angles_in_triad", "posvel_block_roundtrip",
-    "model_exprs_ok", "check_all_sound", "check_rot_sound", "check_enu_sound", "check_delta_sound", "acr_1d_transposed_refuted",
+    "model_exprs_ok", "check_all_sound", "check_rot_sound", "check_enu_sound", "check_delta_sound",
+    "check_acr_mat_sound", "check_acr_delta_sound", "check_normal_sound", "normal_frame_complete", "check_azel_sound",
+    "elevation_clip_irrelevant", "az_el_at_zenith", "az_el_at_nadir",
+    "det_l_rows3", "posvel_block_is_rotation", "enu_block_is_rotation", "acr_block_roundtrip",
+    "acr_1d_transposed_refuted",
 ]
 
 REQ = "From Verif Require Import Lib.Dyadic Model.C06_Rot."
@@ -179,6 +183,19 @@ def run(ctx):
             return False
         return True
 
+    def conv(what, obj_fn, want, cols, rep):
+        """value of a converted difference as (-1, cols) rows; its shape must be the shape of the input array"""
+        val = out(obj_fn())
+        if tuple(val.shape) != tuple(want):
+            rep = dict(rep, kind="shape", how=what, observed_shape=list(val.shape), expected_shape=list(want))
+            if len(want) == 2 and want[0] == 1 and tuple(val.shape) == (want[1],):
+                ctx.count("quirk:single_row_squeezed")
+                ctx.finding("c06_single_row_squeezed",
+                            "a (1,3)/(1,6) array of differences is converted to shape (3,)/(6,) (np.squeeze in delta_*)", rep)
+            else:
+                other_mism.append(dict(rep, what=f"{what}: shape {val.shape}, expected {tuple(want)}"))
+        return val.reshape(-1, cols)
+
     # ---- A. elementary rotations: scalar, (n,) array, list input; angles in [-4pi, 4pi]
     n_ang = 100 if q else 1200
     angles = [gen_angle(rng) for _ in range(n_ang)]
@@ -276,12 +293,14 @@ def run(ctx):
         e2t = out(ref.enu2trs).reshape(-1, 3, 3)
         t2e = out(ref.trs2enu).reshape(-1, 3, 3)
         east, north, up = (out(x).reshape(-1, 3) for x in (ref.enu_east, ref.enu_north, ref.enu_up))
+        srep = dict(kind="shape", shape=shape, ref_system=system, ellipsoid=ell.name, ref=fl(rows[0]))
+        want = np.shape(mk(ds))
         d_trs = PositionDelta(mk(ds), system="trs", ref_pos=ref)
-        enu = out(d_trs.enu.val).reshape(-1, 3)
-        back = out(d_trs.enu.trs.val).reshape(-1, 3)
+        enu = conv("PositionDelta(d, 'trs', ref_pos=ref).enu.val", lambda: d_trs.enu.val, want, 3, srep)
+        back = conv("PositionDelta(d, 'trs', ref_pos=ref).enu.trs.val", lambda: d_trs.enu.trs.val, want, 3, srep)
         d_enu = PositionDelta(mk(ds), system="enu", ref_pos=ref)
-        trs = out(d_enu.trs.val).reshape(-1, 3)
-        back2 = out(d_enu.trs.enu.val).reshape(-1, 3)
+        trs = conv("PositionDelta(d, 'enu', ref_pos=ref).trs.val", lambda: d_enu.trs.val, want, 3, srep)
+        back2 = conv("PositionDelta(d, 'enu', ref_pos=ref).trs.enu.val", lambda: d_enu.trs.enu.val, want, 3, srep)
         # position/velocity reference on the same ellipsoid: its frame is the frame of its position part
         vel = np.array([gen_delta(rng) * 1e-3 for _ in range(n)])
         pv_ref = PosVel(mk(np.hstack([refs, np.array([gen_unit(rng) * 3e3 for _ in range(n)])])), system="trs", ellipsoid=ell)
@@ -289,8 +308,9 @@ def run(ctx):
         pv_llh = out(pv_ref.pos.llh.val).reshape(-1, 3)     # the latitude/longitude this object uses (trs2llh is C05; its error grows to
         #                                                     2e-11 rad at 2e7 m height); the frame itself is checked by normal_case
         pvd = PosVelDelta(mk(np.hstack([ds, vel])), system="trs", ref_pos=pv_ref)
-        pv_enu = out(pvd.enu.val).reshape(-1, 6)
-        pv_back = out(pvd.enu.trs.val).reshape(-1, 6)
+        want6 = np.shape(mk(np.hstack([ds, vel])))
+        pv_enu = conv("PosVelDelta(dv, 'trs', ref_pos=pv).enu.val", lambda: pvd.enu.val, want6, 6, srep)
+        pv_back = conv("PosVelDelta(dv, 'trs', ref_pos=pv).enu.trs.val", lambda: pvd.enu.trs.val, want6, 6, srep)
         ctx.count(f"delta:shape:{shape}")
         ctx.count(f"ref:system:{system}")
         for i in range(n):
@@ -372,11 +392,24 @@ def run(ctx):
         pv = PosVel(mk(states), system="trs")
         t2a = out(pv.trs2acr).reshape(-1, 3, 3)
         a2t = out(pv.acr2trs).reshape(-1, 3, 3)
+        srep = dict(kind="shape", shape=shape, state=fl(states[0]))
+        want6 = np.shape(mk(dd6))
         d_trs = PosVelDelta(mk(dd6), system="trs", ref_pos=pv)
-        acr = out(d_trs.acr.val).reshape(-1, 6)
-        back = out(d_trs.acr.trs.val).reshape(-1, 6)
+        acr = conv("PosVelDelta(d, 'trs', ref_pos=pv).acr.val", lambda: d_trs.acr.val, want6, 6, srep)
+        back = conv("PosVelDelta(d, 'trs', ref_pos=pv).acr.trs.val", lambda: d_trs.acr.trs.val, want6, 6, srep)
         d_acr = PosVelDelta(mk(dd6), system="acr", ref_pos=pv)
-        trs = out(d_acr.trs.val).reshape(-1, 6)
+        trs = conv("PosVelDelta(d, 'acr', ref_pos=pv).trs.val", lambda: d_acr.trs.val, want6, 6, srep)
+        # the unit vectors of the triad as attributes: columns of acr2trs, bit for bit
+        try:
+            axes = [out(x).reshape(-1, 3) for x in (pv.acr_along, pv.acr_cross, pv.acr_radial)]
+        except IndexError as e:
+            axes = None
+            arep = dict(srep, kind="acr_axes", how="PosVel(state, system='trs').acr_along / .acr_cross", error=f"IndexError: {e}")
+            if shape == "(6,)":
+                ctx.count("quirk:acr_axes_1d_indexerror")
+                ctx.finding("c06_acr_axes_1d_indexerror", "PosVelArray.acr_along/acr_cross raise IndexError for a single (6,) state", arep)
+            else:
+                other_mism.append(dict(arep, what="acr_along/acr_cross raised IndexError"))
         ctx.count(f"acr:shape:{shape}")
         for i in range(n):
             r, v = states[i, :3], states[i, 3:]
@@ -386,6 +419,11 @@ def run(ctx):
             fam["negT"].add(emit.pair(dys(t2a[i]), dys(a2t[i])), dict(base, kind="negT", fn="PosVel.acr2trs vs trs2acr.T",
                                                                        Ra=fl(t2a[i]), Rminus=fl(a2t[i]), how="PosVel.acr2trs == PosVel.trs2acr.T"))
             ctx.case(("acrm", fl(states[i]), shape == "(6,)"), nontrivial=True, sample=rep if i == 0 and shape == "(n,6)" else None)
+            if axes is not None:
+                fam["triad"].add(emit.pair(dys(a2t[i]), dys(axes[0][i]), dys(axes[1][i]), dys(axes[2][i])),
+                                 dict(base, kind="triad", acr2trs=fl(a2t[i]), along=fl(axes[0][i]), cross=fl(axes[1][i]), radial=fl(axes[2][i]),
+                                      how="PosVel.acr_along/acr_cross/acr_radial vs columns of PosVel.acr2trs"))
+                ctx.case(("acr_axes", fl(states[i])), nontrivial=True)
             for to_trs, dd, oo, how in ((False, dd6[i, :3], acr[i, :3], "PosVelDelta(d, 'trs', ref_pos=pv).acr [pos]"),
                                         (False, dd6[i, 3:], acr[i, 3:], "PosVelDelta(d, 'trs', ref_pos=pv).acr [vel]"),
                                         (True, dd6[i, :3], trs[i, :3], "PosVelDelta(d, 'acr', ref_pos=pv).trs [pos]")):
